@@ -19,7 +19,7 @@ import (
 func init() {
 	Register(&Prop{
 		ID: "C07", NoShrink: true,
-		Rule: "srv: requests with Content-Length / chunked / fixed-length multipart (pre-parsed, not pre-parsed, with Content-Encoding) bodies of sizes around MaxRequestBodySize L (L-1, L, L+1, 2L, chunk splits) on a real connection; cli: Response.ReadLimitBody with fixed / chunked / identity bodies around L; " +
+		Rule: "srv: requests with Content-Length / chunked / fixed-length multipart (pre-parsed, not pre-parsed, with Content-Encoding) bodies of sizes around MaxRequestBodySize L (L-1, L, L+1, 2L, chunk splits) on a real connection; cli: Response.ReadLimitBody with fixed / chunked / identity bodies around L, on fresh Response objects and on objects whose body buffer was grown by an earlier larger response; " +
 			"gz: Body*WithLimit on gzip bodies whose inflated size is around L (incl. bombs); mp: MultipartFormWithLimit; head: request heads around ReadBufferSize; " +
 			"non-trivial = body size within [L-2, 2L]; distinct = distinct input",
 		Parallel: true,
@@ -125,13 +125,23 @@ func init() {
 					fmt.Fprintf(&w, "HTTP/1.1 200 OK\r\n\r\n%s", body)
 				}
 				var resp fasthttp.Response
+				// a[4] (optional): the Response object was used before for a body of that size (its body buffer keeps
+				// the capacity), as happens with pooled / reused responses
+				prime := 0
+				if len(a) > 4 {
+					prime = num(4)
+				}
+				if prime > 0 {
+					pw := fmt.Sprintf("HTTP/1.1 200 OK\r\nContent-Length: %d\r\n\r\n%s", prime, bytes.Repeat([]byte("p"), prime))
+					resp.Read(bufio.NewReader(strings.NewReader(pw)))
+				}
 				err := resp.ReadLimitBody(bufio.NewReader(bytes.NewReader(w.Bytes())), L)
 				tooLarge := errors.Is(err, fasthttp.ErrBodyTooLarge)
 				got := len(resp.Body())
 				impl := fmt.Sprintf("err=%v toolarge=%v body=%d", err != nil, tooLarge, got)
-				return &Case{Impl: impl, Nontrivial: size >= L-2 && size <= 2*L, Tags: []string{"cli-" + mode},
+				return &Case{Impl: impl, Nontrivial: size >= L-2 && size <= 2*L, Tags: []string{"cli-" + mode, fmt.Sprintf("cli-reused-response=%v", prime > 0)},
 					Judge: func([]string) Verdict {
-						desc := fmt.Sprintf("Response.ReadLimitBody L=%d body=%d mode=%s: %s", L, size, mode, impl)
+						desc := fmt.Sprintf("Response.ReadLimitBody L=%d body=%d mode=%s (Response used before for a %d-byte body): %s", L, size, mode, prime, impl)
 						if size > L && !tooLarge {
 							return Verdict{VSpec, "client-oversized-accepted", desc}
 						}
@@ -256,7 +266,11 @@ func init() {
 				case 0, 1:
 					emit("srv", N(L), N(size), B(r.Pick([]string{"cl", "ch", "cl", "ch", "mp", "mpnp", "mpgz"})), N(step))
 				case 2, 3:
-					emit("cli", N(L), N(size), B(r.Pick([]string{"cl", "ch", "id"})), N(step))
+					prime := 0
+					if r.Chance(40) {
+						prime = []int{L, 4 * L, 16*L + 100, 70000}[r.Intn(4)]
+					}
+					emit("cli", N(L), N(size), B(r.Pick([]string{"cl", "ch", "id"})), N(step), N(prime))
 				case 4:
 					if r.Chance(20) {
 						size = L * 50
